@@ -60,8 +60,8 @@ func valuesOracle(p *run.Part, check string, w *seqx.World, c seqx.Case) {
 		}
 		str := l.ToString(nil)
 		lines := 0
-		if str != "" {
-			lines = len(strings.Split(str, "\n"))
+		if len(es) > 0 {
+			lines = strings.Count(str, "\n") + 1 // an entry with an empty payload is an empty line
 		}
 		if lines != len(es) {
 			p.Violate(check, "C03:tostring-lines", fmt.Sprintf("after %s: replica %d ToString has %d lines for %d entries", seqx.PathString(c.Path), i, lines, len(es)), c)
@@ -91,7 +91,8 @@ func c03Searches(p *run.Part, tier string) []*seqx.Search {
 			}}
 	}
 	return []*seqx.Search{mk(CfgDef3, "", depth), mk(CfgHash3, "", depth), mk(CfgShared3, "", depth-1), mk(CfgSharedH, "", depth-1),
-		mk(CfgDef3, "+tri4", pdepth), mk(CfgDef3, "+fork12", pdepth), mk(CfgClk3, "", depth-1), mkPolicy(mk, "denyB/default", depth), mkPolicy(mk, "denyP3/default", depth)}
+		mk(CfgDef3, "+tri4", pdepth), mk(CfgDef3, "+fork12", pdepth), mk(CfgClk3, "", depth-1), mkPolicy(mk, "denyB/default", depth), mkPolicy(mk, "denyP3/default", depth),
+		mk(CfgDef3, "+ab-merged", depth-1), mk(CfgDef3, "+abc", depth-1), mk2(mk, depth+2), mkEmpty(mk, CfgDef3, depth-1)}
 }
 
 func init() {
